@@ -208,3 +208,441 @@ func allZero(fs []string) bool {
 	}
 	return true
 }
+
+// ---------------------------------------------------------------- stream "files"
+
+// Stream "files" of C11: the same one-CHF-a-day journal, but laid out over several files (include), and loaded under
+// several goroutine schedules.
+//
+// The window of a report is the requested period clipped to the journal's period, and the journal's period is put together
+// from what the concurrently parsed files contribute, in whatever order they arrive (seeded change C11-f merged the date
+// range of a whole file into the period and moved only its end when a file enclosed what had arrived before: the window
+// then started too late and the earliest columns vanished).  The statement does not depend on the layout: the columns are
+// the period ends of the partition of [first transaction or --from, last transaction/price or --to] and every day is
+// counted in the column of its period.  Varied: which days each file holds (contiguous chunks in any file order, onion
+// layers where a file encloses the next one on both or on one side with thin and thick layers, interleaved and random
+// assignment, files without transactions), the include tree (flat, chain, random; subdirectories), where in a file the
+// includes stand (the parser starts an included file when it meets the directive and hands a file on when it is
+// finished, so position and size decide the natural arrival order), the order of the transactions in a file, prices
+// before the first and after the last transaction (they move the end of the period, never its start), and the
+// schedule: each tree is run unperturbed and with several KNUT_VERIF_SEED / GOMAXPROCS settings.
+type c11File struct {
+	rel    string
+	parent int
+	days   []int    // day offsets held by the file, in the order written
+	extra  []string // other directives
+	incPos int      // includes of the children: 0 at the top, 1 at the bottom, 2 anywhere
+}
+
+type c11Run struct {
+	env            []string
+	code           int
+	stdout, stderr string
+}
+
+func c11DayRanges(ds []int) string {
+	if len(ds) == 0 {
+		return "-"
+	}
+	var parts []string
+	for i := 0; i < len(ds); {
+		j, step := i, 0
+		if i+1 < len(ds) && (ds[i+1]-ds[i] == 1 || ds[i+1]-ds[i] == -1) {
+			step = ds[i+1] - ds[i]
+			for j+1 < len(ds) && ds[j+1]-ds[j] == step {
+				j++
+			}
+		}
+		if j == i {
+			parts = append(parts, itoa(ds[i]))
+		} else {
+			parts = append(parts, fmt.Sprintf("%d..%d", ds[i], ds[j]))
+		}
+		i = j + 1
+	}
+	return strings.Join(parts, ",")
+}
+
+func runC11Files(c *Ctx) {
+	if c.KnutBin == "" {
+		return
+	}
+	n := c.N(140, 4000)
+	nruns := c.N(3, 5)
+	base := filepath.Join(c.WorkDir, "c11files")
+	type job struct {
+		idx                 int
+		first, ndays        int
+		from, to, iv, last  int
+		diff                bool
+		prePrice, postPrice int // day numbers, 0: none
+		mode, shape         string
+		files               []*c11File
+		texts               []string
+		args                []string
+		runs                []*c11Run
+		layout              []map[string]any
+		root                string
+	}
+	var jobs []*job
+	for i := 0; i < n; i++ {
+		if !c.Want("files", i) {
+			continue
+		}
+		r := c.Rng("files", i)
+		jb := &job{idx: i}
+		jb.first = dayNum(time.Date(r.Range(1995, 2022), time.Month(r.Range(1, 12)), r.Range(1, 28), 0, 0, 0, 0, time.UTC))
+		jb.ndays = Pick(r, []int{2, 3, 7, 20, 45, 100, 200, 400})
+		if c.Thorough() && r.Chance(1, 10) {
+			jb.ndays = r.Range(2, 1000)
+		}
+		lastDay := jb.first + jb.ndays - 1
+		if r.Chance(1, 2) {
+			jb.from = jb.first + r.Range(-10, jb.ndays/2+2)
+		}
+		if r.Chance(1, 2) {
+			jb.to = lastDay + r.Range(-jb.ndays/2-2, 15)
+			if r.Chance(1, 8) {
+				t := dayTime(jb.to)
+				jb.to = dayNum(time.Date(t.Year(), t.Month(), 1, 0, 0, 0, 0, time.UTC)) - r.Intn(2)
+			}
+		}
+		jb.iv = Pick(r, []int{0, 1, 2, 2, 3, 3, 3, 4, 4, 5})
+		if jb.iv == 1 && jb.ndays > 100 {
+			jb.iv = 2
+		}
+		if r.Chance(1, 3) {
+			jb.last = r.Range(1, 5)
+		}
+		jb.diff = r.Chance(1, 2)
+		if r.Chance(1, 4) {
+			jb.prePrice = jb.first - r.Range(1, 400)
+		}
+		if r.Chance(1, 4) {
+			jb.postPrice = lastDay + Pick(r, []int{1, 2, 10, 40, 100})
+		}
+
+		// ---- which file holds which days
+		nfiles := r.Range(2, 5)
+		if nfiles > jb.ndays {
+			nfiles = jb.ndays
+		}
+		perm := make([]int, nfiles)
+		for k := range perm {
+			perm[k] = k
+		}
+		for k := nfiles - 1; k > 0; k-- {
+			w := r.Intn(k + 1)
+			perm[k], perm[w] = perm[w], perm[k]
+		}
+		hold := make([][]int, nfiles)
+		switch r.Intn(5) {
+		case 0: // contiguous chunks (a file per year), some possibly empty, in any file order
+			jb.mode = "chunks"
+			cuts := []int{0}
+			for k := 1; k < nfiles; k++ {
+				cuts = append(cuts, r.Range(0, jb.ndays))
+			}
+			cuts = append(cuts, jb.ndays)
+			for a := 1; a < len(cuts); a++ {
+				for b := a; b > 0 && cuts[b] < cuts[b-1]; b-- {
+					cuts[b], cuts[b-1] = cuts[b-1], cuts[b]
+				}
+			}
+			for k := 0; k < nfiles; k++ {
+				for d := cuts[k]; d < cuts[k+1]; d++ {
+					hold[perm[k]] = append(hold[perm[k]], d)
+				}
+			}
+		case 1, 2: // onion: a file encloses the days of the next one, on both sides or on one
+			jb.mode = "onion"
+			lo, hi := 0, jb.ndays
+			width := func(room int) int {
+				if room < 1 {
+					return 0
+				}
+				switch r.Intn(4) {
+				case 0:
+					return 1
+				case 1:
+					return room
+				}
+				return r.Range(1, room)
+			}
+			for k := 0; k < nfiles; k++ {
+				f := perm[k]
+				if k == nfiles-1 || hi-lo < 3 {
+					for d := lo; d < hi; d++ {
+						hold[f] = append(hold[f], d)
+					}
+					lo = hi
+					continue
+				}
+				room := (hi - lo - 1) / 2
+				wl, wr := width(room), width(room)
+				switch r.Intn(6) {
+				case 0:
+					wl = 0
+					jb.mode = "onion-onesided"
+				case 1:
+					wr = 0
+					jb.mode = "onion-onesided"
+				}
+				for d := lo; d < lo+wl; d++ {
+					hold[f] = append(hold[f], d)
+				}
+				for d := hi - wr; d < hi; d++ {
+					hold[f] = append(hold[f], d)
+				}
+				lo, hi = lo+wl, hi-wr
+			}
+		case 3: // interleaved
+			jb.mode = "interleaved"
+			stride := Pick(r, []int{1, 1, 2, 7, 30})
+			for d := 0; d < jb.ndays; d++ {
+				f := perm[(d/stride)%nfiles]
+				hold[f] = append(hold[f], d)
+			}
+		default:
+			jb.mode = "random"
+			for d := 0; d < jb.ndays; d++ {
+				f := r.Intn(nfiles)
+				hold[f] = append(hold[f], d)
+			}
+		}
+		if r.Chance(1, 4) {
+			// a further file without any transaction
+			hold = append(hold, nil)
+			nfiles++
+			// ... which is the main file half of the time
+			if r.Bool() {
+				hold[0], hold[nfiles-1] = hold[nfiles-1], hold[0]
+			}
+		}
+		// ---- the include tree
+		treeKind := r.Intn(3)
+		jb.shape = []string{"flat", "chain", "tree"}[treeKind]
+		dirs := []string{"", "", "sub", "sub/deep", "y"}
+		for k := 0; k < nfiles; k++ {
+			f := &c11File{rel: "main.knut", parent: -1, days: hold[k], incPos: r.Intn(3)}
+			if k > 0 {
+				f.rel = filepath.Join(Pick(r, dirs), fmt.Sprintf("f%d.knut", k))
+				switch treeKind {
+				case 0:
+					f.parent = 0
+				case 1:
+					f.parent = k - 1
+				default:
+					f.parent = r.Intn(k)
+				}
+			}
+			switch r.Intn(3) {
+			case 1: // newest first
+				for a, b := 0, len(f.days)-1; a < b; a, b = a+1, b-1 {
+					f.days[a], f.days[b] = f.days[b], f.days[a]
+				}
+			case 2:
+				if r.Chance(1, 2) {
+					for q := len(f.days) - 1; q > 0; q-- {
+						w := r.Intn(q + 1)
+						f.days[q], f.days[w] = f.days[w], f.days[q]
+					}
+				}
+			}
+			jb.files = append(jb.files, f)
+		}
+		of := jb.files[r.Intn(nfiles)]
+		of.extra = append(of.extra, fmt.Sprintf("%s open Assets:A\n", fmtDate(jb.first-1)))
+		of = jb.files[r.Intn(nfiles)]
+		of.extra = append(of.extra, fmt.Sprintf("%s open Equity:E\n", fmtDate(jb.first-1)))
+		if jb.prePrice != 0 {
+			of = jb.files[r.Intn(nfiles)]
+			of.extra = append(of.extra, fmt.Sprintf("%s price USD 0.9 CHF\n", fmtDate(jb.prePrice)))
+		}
+		if jb.postPrice != 0 {
+			of = jb.files[r.Intn(nfiles)]
+			of.extra = append(of.extra, fmt.Sprintf("%s price USD 1.1 CHF\n", fmtDate(jb.postPrice)))
+		}
+		// ---- the text of the files
+		for k, f := range jb.files {
+			var items []string
+			for _, d := range f.days {
+				items = append(items, fmt.Sprintf("%s \"d%d\"\nEquity:E Assets:A 1 CHF\n", fmtDate(jb.first+d), d))
+			}
+			for _, e := range f.extra {
+				p := r.Intn(len(items) + 1)
+				items = append(items[:p], append([]string{e}, items[p:]...)...)
+			}
+			var children []int
+			for q := k + 1; q < nfiles; q++ {
+				if jb.files[q].parent != k {
+					continue
+				}
+				children = append(children, q)
+				relp, _ := filepath.Rel(filepath.Dir(f.rel), jb.files[q].rel)
+				inc := fmt.Sprintf("include \"%s\"\n", relp)
+				p := 0
+				switch f.incPos {
+				case 1:
+					p = len(items)
+				case 2:
+					p = r.Intn(len(items) + 1)
+				}
+				items = append(items[:p], append([]string{inc}, items[p:]...)...)
+			}
+			jb.texts = append(jb.texts, strings.Join(items, "\n"))
+			jb.layout = append(jb.layout, map[string]any{"file": f.rel, "includes": children, "includes_at": []string{"top", "bottom", "anywhere"}[f.incPos],
+				"days": c11DayRanges(f.days), "other": f.extra})
+		}
+		jb.args = []string{"balance", "--color=false", "--csv", "--close=false"}
+		if jb.to != 0 {
+			jb.args = append(jb.args, "--to", fmtDate(jb.to))
+		}
+		if jb.from != 0 {
+			jb.args = append(jb.args, "--from", fmtDate(jb.from))
+		}
+		if jb.iv > 0 {
+			jb.args = append(jb.args, intervalFlag[jb.iv])
+		}
+		if jb.last > 0 {
+			jb.args = append(jb.args, "--last", itoa(jb.last))
+		}
+		if jb.diff {
+			jb.args = append(jb.args, "--diff")
+		}
+		// ---- the schedules: unperturbed first
+		for k := 0; k < nruns; k++ {
+			run := &c11Run{}
+			if k > 0 {
+				run.env = append(run.env, fmt.Sprintf("KNUT_VERIF_SEED=%d", r.Range(1, 100000)))
+			}
+			if g := Pick(r, []string{"", "", "1", "2", "4"}); g != "" {
+				run.env = append(run.env, "GOMAXPROCS="+g)
+			}
+			jb.runs = append(jb.runs, run)
+		}
+		jobs = append(jobs, jb)
+	}
+	for _, jb := range jobs {
+		dir := filepath.Join(base, fmt.Sprintf("c%d", jb.idx))
+		for k, f := range jb.files {
+			p := filepath.Join(dir, f.rel)
+			os.MkdirAll(filepath.Dir(p), 0o755)
+			os.WriteFile(p, []byte(jb.texts[k]), 0o644)
+		}
+		jb.root = filepath.Join(dir, "main.knut")
+	}
+	type rj struct{ j, k int }
+	var rjs []rj
+	for j := range jobs {
+		for k := range jobs[j].runs {
+			rjs = append(rjs, rj{j, k})
+		}
+	}
+	parallelFor(len(rjs), 16, func(q int) {
+		jb := jobs[rjs[q].j]
+		run := jb.runs[rjs[q].k]
+		run.code, run.stdout, run.stderr = runKnut(c.KnutBin, 20*time.Second, run.env, append(append([]string{}, jb.args...), jb.root)...)
+	})
+	os.RemoveAll(base)
+	bt := c.NewBatch()
+	defer bt.Flush()
+	for _, jb := range jobs {
+		jb := jb
+		c.Evals++
+		lastDay := jb.first + jb.ndays - 1
+		// the journal's period: first transaction .. last transaction or price; the window: the requested one clipped to it
+		a, b := jb.first, lastDay
+		if jb.postPrice > b {
+			b = jb.postPrice
+		}
+		if jb.from > a {
+			a = jb.from
+		}
+		to := jb.to
+		if to == 0 {
+			to = today()
+		}
+		if to < b {
+			b = to
+		}
+		c.Class(fmt.Sprintf("files/%s/%s/n%d/iv%d/last%d/diff%v/from%v/to%v/pre%v/post%v/n%s/%s", jb.mode, jb.shape, len(jb.files), jb.iv, min(jb.last, 2), jb.diff, jb.from != 0, jb.to != 0,
+			jb.prePrice != 0, jb.postPrice != 0, bucket(jb.ndays), sign(b-a)))
+		if jb.idx < 1 {
+			c.Sample(map[string]any{"stream": "files", "args": jb.args, "layout": jb.layout, "stdout": clip(jb.runs[0].stdout)})
+		}
+		// days of the journal inside [lo, hi] and inside the window
+		count := func(lo, hi int) int {
+			lo, hi = max(lo, a, jb.first), min(hi, b, lastDay)
+			if hi < lo {
+				return 0
+			}
+			return hi - lo + 1
+		}
+		for _, run := range jb.runs {
+			run := run
+			in := map[string]any{"args": strings.Join(jb.args, " ") + " main.knut", "journal": fmt.Sprintf("1 CHF from Equity:E to Assets:A on each of the %d days from %s (day 0), spread over files", jb.ndays, fmtDate(jb.first)),
+				"layout": jb.layout, "window": map[string]any{"a": a, "b": b, "start": fmtDate(a), "end": fmtDate(b), "iv": jb.iv, "last": jb.last},
+				"child_environment": strings.Join(childTZ(run.env, append(append([]string{}, jb.args...), jb.root)), " ")}
+			if !c.Monitor("files", jb.idx, "balance terminates with exit 0", in, run.code == 0, fmt.Sprintf("exit %d stderr %s", run.code, clip(run.stderr))) {
+				continue
+			}
+			var header, row []string
+			for _, l := range strings.Split(run.stdout, "\n") {
+				f := strings.Split(l, ",")
+				switch {
+				case strings.HasPrefix(l, "Account,"):
+					header = f[2:]
+				case f[0] == "A" && len(f) >= 2:
+					row = f[2:]
+				}
+			}
+			bt.Add(func(model string) {
+				if !strings.HasPrefix(model, "ok") {
+					c.Compare("files", jb.idx, "columns", in, "header "+strings.Join(header, " "), model)
+					return
+				}
+				var ends []int
+				for _, f := range strings.Fields(model)[1:] {
+					var s, e int
+					fmt.Sscanf(f, "%d:%d", &s, &e)
+					ends = append(ends, e)
+				}
+				if b < a {
+					c.Monitor("files", jb.idx, "empty window shows no amounts", in, len(row) == 0 || allZero(row), run.stdout)
+					return
+				}
+				want := make([]string, len(ends))
+				for k, e := range ends {
+					want[k] = fmtDate(e)
+				}
+				if !c.Monitor("files", jb.idx, "C11 columns are the period ends of the partition, whatever the layout over files and their arrival order", in, strings.Join(header, ",") == strings.Join(want, ","),
+					fmt.Sprintf("columns %v, period ends of the model %v for the window %s..%s\n%s", header, want, fmtDate(a), fmtDate(b), run.stdout)) {
+					return
+				}
+				exp := make([]string, len(ends))
+				for k, e := range ends {
+					lo := 0
+					if jb.diff && k > 0 {
+						lo = ends[k-1] + 1
+					}
+					exp[k] = ""
+					if cnt := count(lo, e); cnt > 0 {
+						exp[k] = itoa(cnt)
+					}
+				}
+				got := append([]string{}, row...)
+				for len(got) < len(exp) {
+					got = append(got, "")
+				}
+				for k := range got {
+					if got[k] == "0" {
+						got[k] = ""
+					}
+				}
+				c.Monitor("files", jb.idx, "C11 every date is attributed to the column of its period, whatever the layout over files and their arrival order", in, strings.Join(got, ",") == strings.Join(exp, ","),
+					fmt.Sprintf("row of Assets:A %v, expected day counts %v (window %s..%s)\n%s", row, exp, fmtDate(a), fmtDate(b), run.stdout))
+			}, "part", itoa(a), itoa(b), itoa(jb.iv), itoa(jb.last))
+		}
+	}
+}
